@@ -28,7 +28,7 @@ ASSUMPTIONS = [
     "unique(): two cells are the same key iff both missing or both non-missing and == (so 0.0 and -0.0 are one key)",
 ]
 REACH = {"quick": {"op:unique": 300, "op:filter": 300, "op:drop_na": 100, "op:slice": 100, "unique:na-key": 50,
-                   "unique:float-hostile-with-na": 3, "nrow:0": 50, "slice:negative-positions": 100, "drop_na:after-inplace-edit": 100}}
+                   "unique:float-hostile-with-na": 3, "nrow:0": 50, "slice:negative-positions": 100, "drop_na:after-inplace-edit": 100, "tag:big": 15}}
 
 OPS = ["filter", "filter", "filter_out", "slice", "slice_off", "head", "tail", "drop_na", "sample", "unique", "unique", "unique"]
 
@@ -36,6 +36,9 @@ def generate(rng, tier):
     tags = set()
     op = rng.choice(OPS)
     nrow = gen.gen_nrow(rng, big=(tier == "thorough"))
+    if rng.random() < 0.003:
+        nrow = rng.choice([1500, 10100])       # size-dependent paths
+        tags.add("big")
     hostile = 0.6 if op == "unique" else 0.25
     spec = gen.gen_frame_spec(rng, nrow=nrow, rid="_rid_", hostile=hostile, tags=tags, kinds=gen.KINDS_KEY + ["timedelta", "float32", "uint64"])
     case = {"op": op, "spec": spec, "tags": sorted(tags)}
